@@ -35,7 +35,28 @@ def rich_base():
                    "TOP", {"x": 4, "d1": False, "d2": True}, filetypes=("txt",))
 
 
-BASES = ["equiv_rich", "subpipe", "dis_pipe", "map_dyn2", "split2", "structs", "map_pipe", "vf_basic", "vf_sub", "diamond"]
+def wild_base():
+    """two calls of one stage, a consumer bound to one of them through a wildcard, and a
+    float argument of very small magnitude"""
+    from mro import stage, call, pipeline, program, ref, self_, lit, const, echo
+    use = call("USE", binds={"a": ref("FIRST", "a"), "b": ref("FIRST", "b"), "eps": lit(1e-20)})
+    use["wildsrc"] = "FIRST"
+    sub = call("MK", binds={"x": self_("x")})
+    sub["wildsrc"] = "self"
+    return program("equiv_wild", [],
+                   [stage("MK", "int x", "int a, int b", {"a": const(1), "b": const(2)}),
+                    stage("USE", "int a, int b, float eps", "int s", {"s": const(3)})],
+                   [pipeline("SUB", "int x", "int a", [sub], {"a": ref("MK", "a")}),
+                    pipeline("TOP", "int x, int x2", "int s, int t",
+                             [call("FIRST", "MK", binds={"x": self_("x")}),
+                              call("SECOND", "MK", binds={"x": self_("x2")}),
+                              call("SUB", binds={"x": self_("x")}),
+                              use],
+                             {"s": ref("USE", "s"), "t": ref("SUB", "a")})],
+                   "TOP", {"x": 4, "x2": 5})
+
+
+BASES = ["equiv_wild", "equiv_rich", "subpipe", "dis_pipe", "map_dyn2", "split2", "structs", "map_pipe", "vf_basic", "vf_sub", "diamond"]
 
 
 def norm(p):
@@ -147,6 +168,26 @@ def edits(p):
             walk_exp(e, ren)
         yield "rename_call:" + where, "semantic", q
         # literal argument
+        # the source of a wildcard binding changes to another call of the same stage
+        if c.get("wildsrc") and c["wildsrc"] != "self":
+            src = next(x for x in pl["calls"] if x["id"] == c["wildsrc"])
+            for other in pl["calls"]:
+                if other["callee"] == src["callee"] and other["id"] != src["id"]:
+                    q = copy.deepcopy(p)
+                    qc = q["pipelines"][i]["calls"][j]
+                    qc["wildsrc"] = other["id"]
+                    for b in qc["binds"]:
+                        if b["e"]["k"] == "ref" and b["e"]["call"] == src["id"]:
+                            b["e"]["call"] = other["id"]
+                    yield "change_wildcard_source:" + where, "semantic", q
+                    break
+        # a float argument of tiny magnitude changes by a factor of three / becomes zero
+        for bi, b in enumerate(c["binds"]):
+            if b["e"]["k"] == "lit" and b["e"]["v"]["k"] == "float" and abs(float(b["e"]["v"]["f"])) < 1e-15:
+                for nv in ("3e-20", "0.0", "1e-30"):
+                    q = copy.deepcopy(p)
+                    q["pipelines"][i]["calls"][j]["binds"][bi]["e"]["v"]["f"] = nv
+                    yield "change_tiny_float:%s.%s=%s" % (where, b["n"], nv), "semantic", q
         for bi, b in enumerate(c["binds"]):
             if b["e"]["k"] == "lit" and b["e"]["v"]["k"] == "int":
                 q = copy.deepcopy(p)
@@ -265,7 +306,7 @@ def invocation(p):
 
 
 def pairs(tier):
-    cat = {p["name"]: p for p in shapes.catalogue() + fshapes.catalogue() + [rich_base()]}
+    cat = {p["name"]: p for p in shapes.catalogue() + fshapes.catalogue() + [rich_base(), wild_base()]}
     out = []
     for name in BASES:
         a = norm(cat[name])
